@@ -1,8 +1,43 @@
 package bsonkit
 
-import "github.com/256dpi/lungo/internal/vf"
+import (
+	"go.mongodb.org/mongo-driver/bson"
+	"go.mongodb.org/mongo-driver/bson/primitive"
 
-// C12: Compare is antisymmetric with range {-1,0,1}, reflexive.
+	"github.com/256dpi/lungo/internal/vf"
+)
+
+// rank is the MongoDB comparison order of type classes, written from the manual
+// (null < numbers < strings < documents < arrays < binary < ObjectId < bool < date < timestamp < regex).
+func rankOf(v interface{}) int {
+	switch v.(type) {
+	case nil:
+		return 0
+	case int32, int64, float64:
+		return 1
+	case string:
+		return 2
+	case bson.D:
+		return 3
+	case bson.A:
+		return 4
+	case primitive.Binary:
+		return 5
+	case primitive.ObjectID:
+		return 6
+	case bool:
+		return 7
+	case primitive.DateTime:
+		return 8
+	case primitive.Timestamp:
+		return 9
+	case primitive.Regex:
+		return 10
+	}
+	return -1
+}
+
+// C12: Compare is antisymmetric with range {-1,0,1} and reflexive.
 func H_C12_antisym() {
 	tags := uint32(vf.Param("tags", vf.TScalars))
 	depth := vf.Param("depth", 0)
@@ -14,4 +49,55 @@ func H_C12_antisym() {
 	vf.Assert(ab == -1 || ab == 0 || ab == 1, "Compare result outside {-1,0,1}")
 	vf.Assert(ab == -ba, "Compare(a,b) != -Compare(b,a)")
 	vf.Assert(Compare(a, a) == 0, "Compare(a,a) != 0")
+	vf.Assert(Compare(b, b) == 0, "Compare(b,b) != 0")
+}
+
+// C12: values of different type classes are ordered by the MongoDB class order.
+func H_C12_class() {
+	tags := uint32(vf.Param("tags", vf.TAll))
+	depth := vf.Param("depth", 1)
+	a := vf.Value("a", "a,b", 2, tags, depth)
+	b := vf.Value("b", "a,b", 2, tags, depth)
+	ra, rb := rankOf(a), rankOf(b)
+	vf.Assume(ra != rb)
+	ab := Compare(a, b)
+	vf.Observe("ab", int64(ab))
+	if ra < rb {
+		vf.Assert(ab == -1, "lower class does not compare lower")
+	} else {
+		vf.Assert(ab == 1, "higher class does not compare higher")
+	}
+}
+
+// C12: numbers of all (non-decimal) numeric types are ordered by exact mathematical value, NaN lowest.
+func H_C12_exact() {
+	a := vf.Value("a", "", 0, vf.TNumbers, 0)
+	b := vf.Value("b", "", 0, vf.TNumbers, 0)
+	ab := Compare(a, b)
+	vf.Observe("ab", int64(ab))
+	vf.Assert(ab == vf.ExactCmp(a, b), "Compare differs from the exact mathematical order")
+}
+
+// C12: transitivity and congruence on triples.
+func H_C12_trans() {
+	tags := uint32(vf.Param("tags", vf.TScalars))
+	depth := vf.Param("depth", 0)
+	a := vf.Value("a", "a,b", 2, tags, depth)
+	b := vf.Value("b", "a,b", 2, tags, depth)
+	c := vf.Value("c", "a,b", 2, tags, depth)
+	ab := Compare(a, b)
+	bc := Compare(b, c)
+	ac := Compare(a, c)
+	vf.Observe("ab", int64(ab))
+	vf.Observe("bc", int64(bc))
+	vf.Observe("ac", int64(ac))
+	if ab <= 0 && bc <= 0 {
+		vf.Assert(ac <= 0, "not transitive: a<=b, b<=c but a>c")
+	}
+	if ab < 0 && bc <= 0 || ab <= 0 && bc < 0 {
+		vf.Assert(ac < 0, "not transitive: a<b<=c or a<=b<c but not a<c")
+	}
+	if ab == 0 {
+		vf.Assert(ac == bc, "equal values are not interchangeable")
+	}
 }
